@@ -556,6 +556,12 @@ func (ec *evalCtx) evalQuant(q *EQuant) Val {
 		}
 		for _, tr := range q.Trig {
 			for _, t := range tr {
+				useOld := false
+				if oc, isOld := t.(*ECall); isOld && oc.Fn == "old" && len(oc.Args) == 1 {
+					// old(s[k]): the same access in the pre-state
+					t = oc.Args[0]
+					useOld = true
+				}
 				ix, ok := t.(*EIndex)
 				if !ok {
 					// s[k].f on a slice of structs
@@ -580,7 +586,16 @@ func (ec *evalCtx) evalQuant(q *EQuant) Val {
 							ok = false
 						}
 					}()
-					sv = ec.eval(ix.X)
+					if useOld {
+						if ec.old == nil {
+							return false
+						}
+						n := *ec
+						n.heap = ec.old
+						sv = n.eval(ix.X)
+					} else {
+						sv = ec.eval(ix.X)
+					}
 					return true
 				}()
 				if !okEval || sv.K != KSlice {
@@ -595,12 +610,22 @@ func (ec *evalCtx) evalQuant(q *EQuant) Val {
 				if v.Type == "nat" {
 					guards = append(guards, sLe("0", k))
 				}
+				key := exprString(t)
+				if useOld {
+					key = "old(" + key + ")"
+				}
 				if isStructElem {
 					ec.vc.erefDecls()
-					absPat[exprString(t)] = sApp("erefid", "(s-arr "+sv.T+")", j)
+					absPat[key] = sApp("erefid", "(s-arr "+sv.T+")", j)
 				} else {
 					comp := ec.vc.elemComp(sliceElem(sv.Typ))
-					absPat[exprString(t)] = sSel(sSel(ec.hget(comp), "(s-arr "+sv.T+")"), j)
+					h := ec.hget(comp)
+					if useOld {
+						n := *ec
+						n.heap = ec.old
+						h = n.hget(comp)
+					}
+					absPat[key] = sSel(sSel(h, "(s-arr "+sv.T+")"), j)
 				}
 			}
 		}
